@@ -42,14 +42,20 @@ def CSTR(p):
 
 
 contract('contracts.py.c14_typelib_lookup_c.ENTRY', params={'typelib': 'GITypelib', 'index': 'int'}, returns='DirEntry',
-         pure_keys=['typelib', 'index'], trusted=True, ensures={'inverse': 'INDEX_OF(typelib, result) == index'})
+         pure_keys=['typelib', 'index'], trusted=True,
+         ensures={'inverse': 'INDEX_OF(typelib, result) == index',
+                  'location': 'result is __elemref(typelib.data, typelib.data.directory + (index - 1) * typelib.data.entry_blob_size)'},
+         note='definition (gitypelib-internal.h): the directory is an array of entry_blob_size-byte entries starting at byte '
+              '`directory` of the mapped file, indexed from 1; distinct indexes name distinct entries (INDEX_OF is its inverse)')
 contract('contracts.py.c14_typelib_lookup_c.INDEX_OF', params={'typelib': 'GITypelib', 'entry': 'DirEntry'}, returns='int',
          pure_keys=['typelib', 'entry'], trusted=True)
 contract('contracts.py.c14_typelib_lookup_c.CSTR', params={'p': 'any'}, returns='str', pure_keys=['p'], trusted=True)
 
-contract('c:g_typelib_get_dir_entry', params={'typelib': 'GITypelib', 'index': 'int'}, returns='DirEntry', trusted=True,
-         ensures={'is_entry': 'result is ENTRY(typelib, index)'},
-         note='directory + (index-1)*entry_blob_size inside the mapped file (byte layout not modelled)')
+contract('c:g_typelib_get_dir_entry', cfile=CF, params={'typelib': 'GITypelib', 'index': 'int'}, returns='DirEntry', props=('C14',),
+         requires=['isinstance(typelib.data, Header)', '0 <= index and index <= 65535'],
+         ensures={'C14.dir_entry.is_the_entry_with_that_index': 'result is ENTRY(typelib, index)'},
+         note='the byte offset directory + (index-1)*entry_blob_size is computed without loss for every 16-bit index (conversions '
+              'to 8/16-bit unsigned types are modelled modulo 2**bits)')
 contract('c:get_section_by_id', params={'typelib': 'GITypelib', 'section_type': 'int'}, returns='Section?',
          pure_keys=['typelib', 'section_type'], trusted=True)
 contract('c:strcmp', params={'a': 'any', 'b': 'any'}, returns='int', trusted=True,
@@ -70,7 +76,7 @@ def N_LOCAL(typelib):
 
 contract('c:g_typelib_get_dir_entry_by_name', cfile=CF,
          params={'typelib': 'GITypelib', 'name': 'any'}, returns='DirEntry?', ghost={'J': 'int'}, props=('C14',),
-         requires=['isinstance(typelib.data, Header)', 'N_LOCAL(typelib) >= 0'],
+         requires=['isinstance(typelib.data, Header)', '0 <= N_LOCAL(typelib) and N_LOCAL(typelib) <= 65535'],
          loops={1: {'invariant': ['1 <= i and i <= n_entries + 1', 'n_entries == N_LOCAL(typelib)', 'dirindex is None',
                                   'implies(1 <= J and J < i, NAME(typelib, J) != CSTR(name))'],
                     'modifies': [], 'var_types': {'i': 'int', 'entry': 'DirEntry', 'entry_name': 'any'}}},
@@ -106,7 +112,7 @@ def GTYPE_NAME(typelib, k):
 
 contract('c:g_typelib_get_dir_entry_by_gtype_name', cfile=CF,
          params={'typelib': 'GITypelib', 'gtype_name': 'any'}, returns='DirEntry?', ghost={'J': 'int'}, props=('C14',),
-         requires=['isinstance(typelib.data, Header)', 'N_LOCAL(typelib) >= 0'],
+         requires=['isinstance(typelib.data, Header)', '0 <= N_LOCAL(typelib) and N_LOCAL(typelib) <= 65535'],
          loops={1: {'invariant': ['1 <= i and i <= N_LOCAL(typelib) + 1',
                                   'implies(1 <= J and J < i, GTYPE_NAME(typelib, J) != CSTR(gtype_name))'],
                     'modifies': [], 'var_types': {'i': 'int', 'entry': 'DirEntry', 'blob': 'RegisteredTypeBlob', 'type': 'any'}}},
@@ -134,7 +140,7 @@ def DOMAIN(typelib, k):
 
 contract('c:g_typelib_get_dir_entry_by_error_domain', cfile=CF,
          params={'typelib': 'GITypelib', 'error_domain': 'int'}, returns='DirEntry?', ghost={'J': 'int'}, props=('C14',),
-         requires=['isinstance(typelib.data, Header)', 'N_LOCAL(typelib) >= 0'],
+         requires=['isinstance(typelib.data, Header)', '0 <= N_LOCAL(typelib) and N_LOCAL(typelib) <= 65535'],
          loops={1: {'invariant': ['1 <= i and i <= n_entries + 1', 'n_entries == N_LOCAL(typelib)',
                                   'implies(1 <= J and J < i, DOMAIN(typelib, J) != CSTR(c_g_quark_to_string(error_domain)))'],
                     'modifies': [], 'var_types': {'i': 'int', 'entry': 'DirEntry', 'blob': 'EnumBlob', 'enum_domain_string': 'any'}}},
